@@ -8,6 +8,9 @@ mod c07;
 mod c08;
 mod c10;
 mod c11;
+mod c12;
+mod c13;
+mod hist;
 mod cexec;
 mod exec;
 mod progs;
@@ -26,7 +29,7 @@ mod text;
 use crate::core::{CheckDef, Tier};
 
 fn defs() -> Vec<&'static CheckDef> {
-    vec![&c01::C01, &cexec::C02, &c03::C03, &cexec::C04, &cexec::C05, &c06::C06, &c07::C07, &c08::C08, &c10::C09, &c10::C10, &c11::C11, &c14::C14, &c15::C15, &c16::C16, &cexec::C17, &c18::C18, &c19::C19, &c20::C20]
+    vec![&c01::C01, &cexec::C02, &c03::C03, &cexec::C04, &cexec::C05, &c06::C06, &c07::C07, &c08::C08, &c10::C09, &c10::C10, &c11::C11, &c12::C12, &c13::C13, &c14::C14, &c15::C15, &c16::C16, &cexec::C17, &c18::C18, &c19::C19, &c20::C20]
 }
 
 fn main() {
